@@ -265,7 +265,9 @@ class C04(Spec):
                     yield dict(c, ops=ops[:i] + [['pop', v]] + ops[i + 1:])
         for i in range(len(c['stims'])):
             if len(c['stims']) > 1:
-                yield dict(c, stims=c['stims'][:i] + c['stims'][i + 1:])
+                yield QC.drop_stim(c, i)
+        for c2 in QC.unspell_candidates(c):
+            yield c2
         for i, st in enumerate(c['stims']):
             for f, v in (('trials', st['trials'] - 1), ('len', st['len'] - 1)):
                 if v >= 1:
